@@ -17,11 +17,13 @@ for d in sorted(glob.glob(os.path.join(V, "seeded", "*-*/")), key=key):
     det += [k + " (cross)" for k, v in w.get("cross_check", {}).items() if v.get("rc") == 1]
     det += [k + " (after strengthening)" for k in w.get("after_strengthening", {})]
     first = det[0] if det else "NOT REPORTED"
-    if m.get("superseded"):
-        first += " (while it broke the property: made harmless by a later fix, see meta.json)"
     hist = m.get("history") or []
     note = ""
-    if any(h.get("detected") is False for h in hist):
+    if m.get("superseded") and not det:
+        first = "never reported: missed at first, then made harmless by a later fix before the check caught up (see meta.json)"
+    elif m.get("superseded"):
+        first += " (while it broke the property: made harmless by a later fix, see meta.json)"
+    if det and any(h.get("detected") is False for h in hist):
         note = " (missed at first; reported after strengthening)"
     files = ",".join(os.path.basename(f) for f in m.get("files_touched", []))
     rows.append("| %s | %s | %s | %s%s |" % (name, files, summ, first, note))
@@ -32,4 +34,4 @@ a, b = "<!-- SEEDTABLE:BEGIN -->", "<!-- SEEDTABLE:END -->"
 if a in s:
     s = s[:s.index(a) + len(a)] + "\n" + tbl + "\n" + s[s.index(b):]
     open(p, "w").write(s)
-print(len(rows), "rows;", sum("NOT REPORTED" in r for r in rows), "not reported")
+print(len(rows), "rows;", sum("NOT REPORTED" in r for r in rows), "not reported;", sum("never reported" in r for r in rows), "made harmless before being reported")
